@@ -54,6 +54,10 @@ class LifecycleOracle:
 
     def __init__(self) -> None:
         self.prev_state = "IDLE"
+        self.owe_not_found: Dict[Any, Any] = {}
+        self.resets_seen = 0
+        self.locate_pass: Dict[Any, Dict[str, Any]] = {}
+        self.discovered = 0
         self.problems: List[Dict[str, Any]] = []
         self.ready = 0
         self.teardown = 0
@@ -78,6 +82,7 @@ class LifecycleOracle:
 
     def user_reset_begin(self) -> None:
         self.user_resets += 1
+        self.resets_seen += 1
 
     def user_reset_end(self, t: float, state: str, facade, descriptors, spa, what: str, overlapped: bool = False) -> None:
         # the return of a reset is itself an observation point: the reset's final "-> IDLE" has no delivery
@@ -178,6 +183,24 @@ class LifecycleOracle:
             return
 
         # ordinary event ------------------------------------------------------------------------------------
+        # outcome "nobody answered": the locate pass that a connect runs itself (started from LOCATED_SPAS) and that discovered no spa is
+        # followed, in the same task, by SPA_NOT_FOUND (-> ERROR_SPA_NOT_FOUND); nothing else may come first
+        owed = self.owe_not_found.pop(task, None)
+        if owed is not None and owed[1] != self.resets_seen:
+            owed = None          # a reset intervened (it clears what the connect was working on): nothing is owed any more
+        if owed is not None:
+            owed = owed[0]
+        if owed is not None and ev != "SPA_NOT_FOUND" and not self._reset_in_progress():
+            self._problem("missing-not-found", f"t={t:.3f}: the locate pass of a connect finished at {owed:.3f} without discovering a spa, but the next "
+                          f"event of {d['task']} is {ev} (state {st}), not SPA_NOT_FOUND", sig="missing-not-found")
+        if ev == "LOCATING_STARTED":
+            self.locate_pass[task] = {"second": prev == "LOCATED_SPAS", "disc0": self.discovered}
+        elif ev == "LOCATING_DISCOVERED_SPA":
+            self.discovered += 1
+        elif ev == "LOCATING_FINISHED":
+            lp = self.locate_pass.pop(task, None)
+            if lp is not None and lp["second"] and self.discovered == lp["disc0"] and not self._reset_in_progress() and not d.get("cancelled_in_handler"):
+                self.owe_not_found[task] = (t, self.resets_seen)
         anns = self.pending_ann.pop(task, [])
         changed_at_ann = [a for a in anns if a["st"] != a["prev"]]
         if changed_at_ann:
@@ -212,6 +235,7 @@ class LifecycleOracle:
             elif st in ERROR_RESETTABLE or prev in ERROR_RESETTABLE:
                 self.internal_reset_tasks.add(task)
                 self.internal_reset_objs[task] = d.get("task_obj")
+                self.resets_seen += 1
             else:
                 self._problem("unrequested-reset", f"t={t:.3f}: RUNNING_SPA_DISCONNECTED delivered by {task} in state {prev}->{st} with no "
                               f"user reset in progress and no error state to recover from")
